@@ -108,4 +108,20 @@ PROPS = {
         quick=dict(checks=400, timeout=900),
         thorough=dict(checks=2500, shards=16, timeout=3000),
     ),
+    "C09": dict(
+        run="^TestC09$",
+        level="fault_enumeration",
+        rule=("for each rapid-drawn populated state (2-4 messages, ordering on/off, keys, acked/leased/dead-letter-due deliveries, 0-2 dead-letter subscriptions incl. filtered, a snapshot, "
+              "deleted and expired resources) and each of 31 mutating operations (publish 1/3, create/delete/update topic and subscription, push config, ack, modack +/0, pull, pull that "
+              "dead-letters, stream ack+nack, stream nack that dead-letters, stream modify-deadline, seek to time (rewind / forward) and to snapshot, create/delete snapshot, dead-letter sweep, "
+              "7 prune/expire jobs): the operation is run fault-free under a counting database driver, then once per event index k (BEGIN, every statement, COMMIT) with that event failing, "
+              "once with the request cancelled just before it, and - for the handlers wrapped in the deadlock-retry loop - once with a synthetic deadlock error at k; oracle: error reported, "
+              "full dump of the five tables unchanged, no waiter notified, retry from the same clock/UUID state reproduces the fault-free dump byte for byte (deadlock: request succeeds with "
+              "that same dump); non-trivial = the faulted event is a write or the commit and follows an earlier write in the same transaction; distinct by (state, operation, k, mode)"),
+        assumptions=["faults are injected at the database/sql driver boundary (statement granularity); torn writes inside SQLite are SQLite's contract",
+                     "Pull's refresh of subscriptions.expires_at is a deliberate separate transaction and may persist when the pull's second transaction fails",
+                     "a cancellation that arrives while COMMIT is executing may yield either the old or the new state, never a mixture", "SQLite backend only; the PostgreSQL deadlock retry loop is driven with a synthetic 40P01 error"],
+        quick=dict(checks=5, timeout=900),
+        thorough=dict(checks=12, shards=16, timeout=3000),
+    ),
 }
